@@ -404,6 +404,46 @@ pub fn run(ctx: &mut Ctx) {
             judge_pair(ctx, &x, &y, &px, &py, "parsed");
         }
     }
+    // components and numeric identifiers with binary / decimal structure (every 2^k and its
+    // neighbours, m·2^s + d, 10^e ± 1 …): each such value X in each position, against the versions
+    // a packed or truncated key would confuse it with (carry into the next field, low part only)
+    ctx.stratum("P2-structured-numbers", true);
+    for &x in structured_numbers().iter().filter(|x| **x <= MAX_SAFE) {
+        if !ctx.take() {
+            continue;
+        }
+        let lows: Vec<u64> = vec![0, 1, 5, x & 0xffff_ffff, x & 0xfffff, x >> 20, x >> 32, x.wrapping_sub(1), x + 1];
+        let mut vs: Vec<MV> = vec![MV::new(1, 0, 0), MV::new(2, 0, 0), MV::new(3, 0, 0), MV::new(1, 1, 0), MV::new(1, 0, 1), MV::new(x, 0, 0), MV::new(1, x, 0), MV::new(1, 0, x), MV::new(2, x, 0), MV::new(1, x, 1), MV::new(1, 1, x), MV::new(x, x, x)];
+        for &l in &lows {
+            if l <= MAX_SAFE {
+                vs.push(MV::new(1, l, 0));
+                vs.push(MV::new(1, 0, l));
+                vs.push(MV::new(l, 0, 0));
+                vs.push(MV::new(1, 1, l));
+                vs.push(MV::new(2, l, 0));
+            }
+        }
+        let cv: Vec<Version> = vs.iter().map(|v| v.to_crate()).collect();
+        for i in 0..vs.len() {
+            for j in 0..vs.len() {
+                judge_pair(ctx, &vs[i], &vs[j], &cv[i], &cv[j], "fields");
+            }
+        }
+    }
+    // the same numbers as numeric prerelease identifiers (below 2^64, not only below MAX_SAFE)
+    for &x in structured_numbers().iter() {
+        if !ctx.take() {
+            continue;
+        }
+        let ids: Vec<u64> = vec![x, x.wrapping_sub(1), x.saturating_add(1), x & 0xffff_ffff, x >> 32, 0, 9];
+        let vs: Vec<MV> = ids.iter().map(|i| MV::new(1, 2, 3).with_pre(&["rc", &i.to_string()])).chain(ids.iter().map(|i| MV::new(1, 2, 3).with_pre(&[&i.to_string()]))).collect();
+        let cv: Vec<Version> = vs.iter().map(|v| v.to_crate()).collect();
+        for i in 0..vs.len() {
+            for j in 0..vs.len() {
+                judge_pair(ctx, &vs[i], &vs[j], &cv[i], &cv[j], "fields");
+            }
+        }
+    }
     ctx.stratum("R-random-pairs", false);
     let n = ctx.tier.n(300_000, 30_000_000);
     for i in 0..n {
